@@ -7,7 +7,9 @@ exhaustive, else 50 random) must give ONE outcome."""
 import resolution_common as rc
 
 GEN = []
-RULE = ("dense families: 1-3 layers x 2-6 overloads with 1-3 visible parameters typed either over the chain-and-diamond part of "
+RULE = ("[python-style family names under the CamelCase convention, several parameter specifications sharing one payload callable, combinator "
+        "type instances (AnyOf / Chain / NotOfType) shared between parameters and overloads, hostile-protocol argument objects - as in C05] "
+        "dense families: 1-3 layers x 2-6 overloads with 1-3 visible parameters typed either over the chain-and-diamond part of "
         "the lattice (A, B, D(A,B), E(D)) or over a mutually unrelated pool (object, A, B, G(A), H(G,B), AnyOf(...)) where "
         "specialization of mappings is not transitive; optional hidden/default/keyword-only (multi-word names)/*args; exclusive "
         "layers register a random subset of their overloads with exclusive=True; 40% of the layers with >= 2 overloads are MultiContexts "
